@@ -440,6 +440,22 @@ def run(ctx):
         else:
             st["trace_skip"] += 1
 
+    # which variant of the generic algorithm does the library implement?  (KF-C17-3: before / after the repair)
+    kf3 = st["trace_beforefix"] > 0
+    if kf3 and st["trace_repaired"] > 0:
+        ctx.violation("the symbolic traces of Implementation::wrap_assign match the model before the repair of KF-C17-3 in some runs and "
+                      "only the repaired model in others", {"counts": dict(st)}, found_input=False, record={"site": "trace", "tags": []})
+    kf10 = st["interval_model_kf10"] > 0
+    if kf10:
+        msg = ("note: the library implements the quadrant test of Box::wrap_assign BEFORE the repair of KF-C17-10 (%d cases explained "
+               "only by it): theorem box_wrap_sound_before_fix_partial applies, box_wrap_sound does not" % st["interval_model_kf10"])
+        print(msg, flush=True); ctx.notes.append(msg)
+    if kf3:
+        msg = ("note: the library implements the variant of wrap_assign BEFORE the repair of KF-C17-3 (%d tripping traces): theorem "
+               "wrap_sound (repaired body) covers its non-tripping runs (wrap_sound_before_fix_partial); tripping runs are KF-C17-3"
+               % st["trace_beforefix"])
+        print(msg, flush=True); ctx.notes.append(msg)
+
     # the literal witnesses of the open known findings are re-run in batch 0: say so when one no longer fails
     for f in ctx.findings:
         if f.get("property") == "C17" and f.get("status") == "open":
@@ -461,9 +477,13 @@ def run(ctx):
              "the planted degenerate witnesses (ids p*) are counted separately",
         planted_degenerate=len(planted), samples=samples, counts=dict(st),
         histograms={k: dict(v) for k, v in hist.items()},
-        traces_validated_against_impl=st["trace_written"] + st["trace_repaired"] + st["interval_model_written"],
+        traces_validated_against_impl=st["trace_both"] + st["trace_repaired"] + st["trace_beforefix"] + st["interval_model_written"] + st["interval_model_kf10"],
+        defect_switches_measured={"kf3_collective_too_complex_variable_left_unwrapped": kf3,
+                                  "kf10_closed_bound_quadrant_test": kf10,
+                                  "traces_distinguishing_the_variants": st["trace_beforefix"] + st["trace_repaired"]},
         box_model_matching_real_result=st["interval_model_written"], box_model_matching_only_pre_fix_comparison=st["interval_model_prefix"],
-        traces_matching_model_as_written=st["trace_written"], traces_matching_repaired_model_only=st["trace_repaired"],
+        traces_matching_both_variants=st["trace_both"], traces_matching_repaired_variant_only=st["trace_repaired"],
+        traces_matching_variant_before_repair_only=st["trace_beforefix"],
         notes=ctx.notes)
     ctx.assumptions += [
         "the theorem wrap_sound is about the code-shaped model of wrap_assign.hh over an abstract domain whose operations are sound (these "
